@@ -2,8 +2,10 @@
     Only statements live here; each is closed by [exact] of a lemma proved in coq/UPacker.
     The model (UPacker.Model) is tied to /repo by the correspondence unit `upacker`. *)
 From Coq Require Import List ZArith Bool.
-From V Require Import Gen.Params Wire.Varint PktProt.PktNum PktProt.PktNumProofs PktProt.Protect PktProt.ProtectProofs
-     UPacker.Model UPacker.ProofsSize UPacker.ProofsFlight UPacker.ProofsDecrypt UPacker.ProofsTop.
+From V Require Import Gen.Params Lib.Hex Wire.Varint Wire.Headers Wire.HeadersProofs
+     PktProt.PktNum PktProt.PktNumProofs PktProt.Protect PktProt.ProtectProofs PktProt.ProtectExamples
+     UFrames.Model UFrames.Proofs UFrames.ProofsLength
+     UPacker.Model UPacker.ProofsSize UPacker.ProofsFlight UPacker.ProofsDecrypt UPacker.ProofsRandom UPacker.ProofsWire UPacker.ProofsTop.
 Import ListNotations.
 Open Scope Z_scope.
 
@@ -106,6 +108,24 @@ Theorem C10_token : forall ctl prefix tail conf,
 Proof. exact t_C10_token. Qed.
 Print Assumptions C10_token.
 
+(** The synthesised token is the prefix followed by the bytes the random source delivered
+    and nothing else, so two dials of one spec send the same token exactly when crypto/rand
+    delivered the same bytes: "fresh per dial" reduces to the oracle. *)
+Theorem C10_token_prefix_oracle : forall ctl prefix tail conf,
+  Z.max ctl (Z.of_nat (length prefix)) > 0 ->
+  resolveToken None ctl prefix tail conf
+  = Some (prefix ++ firstn (Z.to_nat (Z.max ctl (Z.of_nat (length prefix))) - length prefix) tail).
+Proof. exact t_C10_token_prefix_oracle. Qed.
+Print Assumptions C10_token_prefix_oracle.
+
+Theorem C10_token_fresh_iff : forall ctl prefix tail1 tail2 conf1 conf2,
+  Z.max ctl (Z.of_nat (length prefix)) > 0 ->
+  let k := (Z.to_nat (Z.max ctl (Z.of_nat (length prefix))) - length prefix)%nat in
+  (resolveToken None ctl prefix tail1 conf1 = resolveToken None ctl prefix tail2 conf2
+   <-> firstn k tail1 = firstn k tail2).
+Proof. exact t_C10_token_fresh_iff. Qed.
+Print Assumptions C10_token_fresh_iff.
+
 Theorem C10_cid_lengths : forall specScid specDcid drawn,
   dialScidLen specScid = specScid /\ (specDcid > 0 -> dialDcidLen specDcid drawn = specDcid) /\
   (specDcid <= 0 -> dialDcidLen specDcid drawn = drawn).
@@ -160,6 +180,43 @@ Theorem C10_random_reserve_sufficient : forall len minpad maxping maxcrypto off 
   pings + framesLen fs <= len - minpad.
 Proof. exact t_C10_random_reserve_sufficient. Qed.
 Print Assumptions C10_random_reserve_sufficient.
+
+(** With C09's model of QUICRandomFrames.buildInternal in place of the oracle: on a slice of at
+    most maxCryptoData bytes (what the packer pops, C10_random_split_exact) the payload the
+    builder returns is exactly Length bytes long and holds at least MinPADDING bytes of PADDING,
+    for every draw of both randomness sources ... *)
+Theorem C10_random_payload_exact : forall p data base bs us ws bs' us',
+  rf_wf p -> 0 <= base -> 0 < rfLen p -> 1 <= minPad p -> base + rfLen p <= maxVarInt8 ->
+  0 < zlen data <= maxCryptoData (rfTuple p) base ->
+  build_internal p data base bs us = Ok (ws, bs', us') ->
+  zlen (encode ws) = rfLen p /\ minPad p <= wpadbytes ws.
+Proof. exact t_C10_random_payload_exact. Qed.
+Print Assumptions C10_random_payload_exact.
+
+(** ... so a QUICRandomFrames-based datagram has the size the spec says, without any oracle for
+    the payload length: header + Length + 16 (padded to the UDP minimum outside the packet),
+    or exactly PacketSize where one is pinned and Length fits it. *)
+Theorem C10_random_datagram_exact : forall p data base bs us ws bs' us' cl s hdr pnLen udpMin,
+  rf_wf p -> 0 <= base -> 0 < rfLen p -> 1 <= minPad p -> base + rfLen p <= maxVarInt8 ->
+  0 < zlen data <= maxCryptoData (rfTuple p) base ->
+  build_internal p data base bs us = Ok (ws, bs', us') ->
+  (hdr + rfLen p + 16 <= 1452 ->
+   appendInitial (cl, 0) hdr pnLen (zlen (encode ws)) udpMin
+   = AppOk (pnLen + rfLen p + 16) (hdr + rfLen p + 16)
+           (Z.max (hdr + rfLen p + 16) (Z.min (if udpMin =? 0 then 1200 else udpMin) 1452)) false) /\
+  (0 < s -> hdr + rfLen p + 16 <= s -> s <= 1452 ->
+   appendInitial (cl, s) hdr pnLen (zlen (encode ws)) udpMin = AppOk (pnLen + (s - hdr - 16) + 16) s s false).
+Proof. exact t_C10_random_datagram_exact. Qed.
+Print Assumptions C10_random_datagram_exact.
+
+Example C10_random_payload_nonvacuous :
+  rf_wf ex_p /\ maxCryptoData (rfTuple ex_p) 0 = 1145 /\
+  match build_internal ex_p (repeat 7 1145%nat) 0 ex_bs ex_us with
+  | Ok (ws, _, _) => zlen (encode ws) = 1215 /\ wpadbytes ws = 23
+  | _ => False
+  end.
+Proof. exact t_C10_random_payload_nonvacuous. Qed.
+Print Assumptions C10_random_payload_nonvacuous.
 
 (** Regression (findings size-frames/overshoot, size-max/builder on the Chrome_146 parrots):
     1145 bytes per datagram instead of 1195; datagrams of 1250 and 1251 bytes. *)
@@ -263,8 +320,23 @@ Theorem C10_le_max_packet_size : forall plan hdr pnLen plen udpMin maxSize lf pl
 Proof. exact t_C10_le_max_packet_size. Qed.
 Print Assumptions C10_le_max_packet_size.
 
-(** STILL REFUTED in general (open findings .../size-max/udp-min: Firefox's 1357-byte
-    datagrams are deliberate mimicry; .../size-max/builder: a builder output that does not
+(** The open finding .../size-max/udp-min, precisely (Firefox parrots: UDPDatagramMinSize 1357
+    on a connection whose maximum packet size is 1280).  With PacketSize 0 the QUIC packet and
+    its Length field do not depend on UDPDatagramMinSize; the DATAGRAM exceeds a maximum packet
+    size that the packet respects exactly when the UDP minimum (capped by the buffer) does, and
+    it then has exactly that size: the excess is zero padding behind the packet, but it is on
+    the wire as a larger UDP datagram -- the property's "none exceeds the connection's current
+    maximum packet size" speaks of datagrams and is violated by it (witness below). *)
+Theorem C10_udp_min_excess : forall cl hdr pnLen plen udpMin maxSize,
+  hdr + plen + 16 <= 1452 -> hdr + plen + 16 <= maxSize ->
+  let mn := Z.min (if udpMin =? 0 then 1200 else udpMin) 1452 in
+  exists dl, appendInitial (cl, 0) hdr pnLen plen udpMin = AppOk (pnLen + plen + 16) (hdr + plen + 16) dl false /\
+             (maxSize < dl <-> maxSize < mn) /\ (maxSize < dl -> dl = mn).
+Proof. exact t_C10_udp_min_excess. Qed.
+Print Assumptions C10_udp_min_excess.
+
+(** STILL REFUTED in general (open findings .../size-max/udp-min: Firefox_116A's 554-byte
+    packet in a 1357-byte datagram on a 1280 connection; .../size-max/builder: a builder output that does not
     fit is not refused). *)
 Theorem C10_le_max_packet_size_refuted :
   (exists lf, appendInitial (0, 0) 22 1 516 1357 = AppOk lf 554 1357 false) /\
@@ -323,6 +395,73 @@ Theorem C10_decryptable :
       lf = pnLen + Z.of_nat (length payload) + 16.
 Proof. exact t_C10_decryptable. Qed.
 Print Assumptions C10_decryptable.
+
+(** ** the serialised header, and what a server reads back *)
+
+(** The bytes ExtendedHeader.Append writes for an Initial packet with these fields (C08's
+    codec model applied to the header getLongHeader fills): first byte 0xc0 | type<<4 |
+    (pnLen-1), version, DCID and SCID with their length bytes, token with its varint length,
+    the Length field as a 2-byte varint, the low pnLen bytes of the packet number — and their
+    number is the header length of the flight model. *)
+Theorem C10_header_bytes : forall ver dcid scid token lf pn pnLen,
+  (ver = H_Version1 \/ ver = H_Version2) -> zlen dcid <= 20 -> zlen scid <= 20 -> 0 <= lf <= 16383 ->
+  1 <= pnLen <= 4 -> zlen token <= maxVarInt8 ->
+  initialHeaderBytes ver dcid scid token lf pn pnLen
+  = (0, (192 + 16 * type_code ver H_PacketTypeInitial + (pnLen - 1))
+        :: (be 4 ver ++ [zlen dcid] ++ dcid ++ [zlen scid] ++ scid ++ vappend (zlen token) ++ token ++ vappend_len lf 2)
+        ++ pn_bytes (Z.to_nat pnLen) pn) /\
+  zlen (snd (initialHeaderBytes ver dcid scid token lf pn pnLen))
+  = 1 + 4 + 1 + zlen dcid + 1 + zlen scid + pnLen + 2 + (vlen (zlen token) + zlen token).
+Proof. exact t_C10_header_bytes. Qed.
+Print Assumptions C10_header_bytes.
+
+(** C10_decryptable at the level of bytes.  For every AEAD that opens what it sealed with a
+    16-byte tag and every header-protection mask: take the k-th packet of any flight, its
+    header serialised with connection IDs and token of the lengths the flight was computed
+    with, any payload of the length the model computed (non-empty, packet number + payload
+    >= 4 bytes), protected by encryptPacket.  A server that parses the long header of the
+    bytes on the wire reads type Initial, the version, exactly that DCID, SCID and token and a
+    Length that is exactly the rest of the packet; removing header protection at the offset
+    the parser reports, decoding the packet number (having opened the previous packet of the
+    flight, or nothing for a first packet inside the window — C10_validated_first_packet) and
+    opening the AEAD gives back the first byte, the full packet number, its encoding length
+    and the frames. *)
+Theorem C10_server_reads_back :
+  forall (aead_seal : Z -> Z -> list Z -> list Z -> list Z)
+         (aead_open : Z -> Z -> list Z -> list Z -> option (list Z))
+         (hp_mask : list Z -> list Z),
+    (forall pn kp ad p, aead_open pn kp ad (aead_seal pn kp ad p) = Some p) ->
+    (forall pn kp ad p, length (aead_seal pn kp ad p) = (length p + 16)%nat) ->
+    forall c helloLen plens k pn pnLen h fs lf pk dl ix rp ver (dcid scid token payload : list Z) largest,
+      nth_error (flight c helloLen plens) k = Some (DG pn pnLen h fs lf pk dl ix rp) ->
+      (ver = H_Version1 \/ ver = H_Version2) ->
+      zlen dcid = c_dcid c -> zlen scid = c_scid c -> zlen token = c_tokLen c ->
+      zlen dcid <= 20 -> zlen scid <= 20 ->
+      1 <= pnLen <= 4 -> pn < 2 ^ 62 -> 0 <= c_ipn c < 2 ^ 64 ->
+      zlen payload = pk - h - 16 -> payload <> [] -> 4 <= pnLen + zlen payload ->
+      (largest = pn - 1 \/ (largest = -1 /\ pn <= 2 ^ (pnLen * 8) / 2)) ->
+      let hb := initialHeaderBytes ver dcid scid token lf pn pnLen in
+      let pkt := protect aead_seal hp_mask true (snd hb) payload pn 0 (Z.to_nat pnLen) in
+      fst hb = 0 /\ zlen (snd hb) = h /\
+      exists hd, parse_header pkt = Some (hd, 0) /\
+        hType hd = H_PacketTypeInitial /\ hVersion hd = ver /\ hDst hd = dcid /\ hSrc hd = scid /\
+        hToken hd = token /\ hLength hd = lf /\ hParsedLen hd = h - pnLen /\
+        zlen pkt = hParsedLen hd + hLength hd /\
+        unprotect aead_open hp_mask true (Z.to_nat (hParsedLen hd)) largest pkt
+        = UOk (192 + 16 * type_code ver H_PacketTypeInitial + (pnLen - 1)) pn pnLen 0 payload.
+Proof. exact t_C10_server_reads_back. Qed.
+Print Assumptions C10_server_reads_back.
+
+(** Non-vacuity: the hypotheses hold for the first packet of a concrete flight (nil builder,
+    8-byte DCID, no token, 1165 payload bytes) with C05's toy AEAD and mask. *)
+Example C10_server_reads_back_nonvacuous :
+  (forall pn kp ad p, toy_open pn kp ad (toy_seal pn kp ad p) = Some p) /\
+  (forall pn kp ad p, length (toy_seal pn kp ad p) = (length p + 16)%nat) /\
+  nth_error (flight (wcfg BPass [] 1 [(999, 1200); (0, 1250)] 0) 1700 []) 0 = Some (DG 1 1 19 [(0, 999)] 1182 1200 1200 1 false) /\
+  zlen (repeat 7 8) = 8 /\ zlen (repeat 1 1165) = 1200 - 19 - 16 /\ repeat 1 1165 <> [] /\ 4 <= 1 + zlen (repeat 1 1165) /\
+  1 <= 2 ^ (1 * 8) / 2.
+Proof. exact t_C10_server_reads_back_nonvacuous. Qed.
+Print Assumptions C10_server_reads_back_nonvacuous.
 
 (** The first packet of a connection is decoded to the sender's packet number exactly when
     the number fits its encoding (which dial now checks); later packets of the flight always
